@@ -198,7 +198,7 @@ class P(core.Prop):
             if ty == 'CONNECT' and 0 <= port < 65536 and rng.random() < 0.3:
                 # the same target through a public entry point
                 routes = ['socksep', 'client', 'guess']
-                if kind in ('host', 'v4') and 0 < len(host) <= 255 and all(ch.isalnum() or ch in '-.' for ch in host) \
+                if kind in ('host', 'v4') and 0 < len(host) <= 255 and all((ch.isascii() and ch.isalnum()) or ch in '-.' for ch in host) \
                         and host.strip('-.') == host and '..' not in host:
                     routes.append('web')
                 c['route'] = rng.choice(routes)
